@@ -153,11 +153,9 @@ func (r *runner) direct(v Val, pv px.Value, s Spec, ps px.Value, o Obs) []findin
 	if s.Kind == "str" {
 		// the directive given for the value is the format the value is rendered under
 		if f := px.GetFormat(ctx.FormatMap(), pv.PType()); f.OrigFormat() != s.directive() {
+			// (the inferred type of every value accepts itself: NaN, and a container that holds NaN, infer types built on the
+			// unbounded Float type - the former finding nan-directive-ignored is an ordinary direct check)
 			tag := "directive-ignored"
-			if holdsNaN(v) {
-				// Float[NaN, NaN] does not accept itself (floattype.go:146), GetFormat falls back to %s
-				tag = "nan-directive-ignored"
-			}
 			fs = append(fs, finding{"directive", fmt.Sprintf("%s under %q: the format selected for the value is %q, the directive is ignored (rendering %s)",
 				v, s.directive(), f.OrigFormat(), o), []string{tag}})
 			return fs
@@ -174,18 +172,6 @@ func safeContext(pv, ps px.Value) (ctx px.FormatContext, err error) {
 		}
 	}()
 	return px.NewFormatContext3(pv, ps)
-}
-
-func holdsNaN(v Val) bool {
-	nan := false
-	v.walk(func(x Val) {
-		if x.K == "float" {
-			if f := x.float(); f != f {
-				nan = true
-			}
-		}
-	})
-	return nan
 }
 
 // mapGrammarClass: the error class of the first directive of the map (depth first) that is outside
